@@ -52,7 +52,8 @@ def check(run):
         # the same clauses under reader schedules and one transient I/O fault: the k-th *successful* read_frame is the k-th frame,
         # read_image (also in the middle of playback) is the first frame, the first frame after a reset is frame 1
         agg2, found2 = run_components(run, [{'name': 'c10', 'oracle': False, 'escalate': False,
-                                             'what': 'API call sequences under reader schedules and one transient fault (k-th successful read_frame = k-th frame)'}], proofs_ok=proofs_ok)
+                                             'what': 'API call sequences under reader schedules and one transient fault (k-th successful read_frame = k-th frame)'},
+                                            {'name': 'readimage', 'oracle': True, 'escalate': False, 'what': 'call sequences (read_frame / reset_animation / read_image / buffer refill, incl. failing calls) on the decoder working on the file bytes vs Model.ReadImageOps'}], proofs_ok=proofs_ok)
         found = found or found2
     failed = [o for o in run.obligations if not o[1]]
     if failed and not found:
